@@ -338,6 +338,9 @@ func (e *Engine) listen(ln net.Listener, tlsConfig *tls.Config, addConn func(*Co
 			conn, err := ln.Accept()
 			if err == nil && !e.shutdown {
 				addConn(&Conn{Conn: conn}, tlsConfig, decrease)
+			} else if err == nil {
+				// accepted while shutting down.
+				_ = conn.Close()
 			} else {
 				var ne net.Error
 				if ok := errors.As(err, &ne); ok && ne.Timeout() {
@@ -349,6 +352,11 @@ func (e *Engine) listen(ln net.Listener, tlsConfig *tls.Config, addConn func(*Co
 					}
 					if e._onAcceptError != nil {
 						e._onAcceptError(err)
+					}
+					// a closed listener never accepts again (a failed
+					// Start closes the listeners it has opened).
+					if errors.Is(err, net.ErrClosed) {
+						return
 					}
 				}
 			}
